@@ -203,6 +203,65 @@ theorem getlike_two (hnil1 : ∀ v, P.eqv v P.nil = P.isNil v) (hnil2 : ∀ v, P
 theorem replicate_getD0 (n : Nat) (a : P.V) : (List.replicate n a)[0]?.getD a = a := by
   cases n <;> rfl
 
+/-- the value-level model of a fixed-arity specialisation is the meaning of the row's shape on the generic function's entry slots
+    (arguments padded with nil) -/
+theorem evalInlineFixed_shape (hnil1 : ∀ v, P.eqv v P.nil = P.isNil v) (hnil2 : ∀ v, P.isNil v = true → v = P.nil)
+    (r : OptRow) (hr : fixedRowOk r = true) (t : CoreFun) (ht : templateOf r.tag = some t)
+    (args : List P.V) (m : M P P.V) (hm : evalInlineFixed P r args = some m) :
+    ∃ sh, shapeOf r = some sh ∧ decodesTo t.words (shapeCode sh) = true ∧ shapeOpsOk sh = true ∧
+      (match sh with | .getlike _ => t.slots = 4 | .put => t.slots = 3 | .sss _ => t.slots = 2 | .signal _ => t.slots ≥ 1 | _ => t.slots = 1) ∧
+      m = shapeSem P sh (frameOf P t.slots args).slots := by
+  unfold fixedRowOk at hr
+  unfold evalInlineFixed at hm
+  split at hm
+  · cases hm
+  · rename_i hguard
+    split at hm <;> rename_i hh <;> (try cases hm) <;> rw [ht] at hr
+    case h_1 op x =>
+      simp only [shapeOf, hh, Bool.and_eq_true, Bool.not_eq_true', beq_iff_eq] at hr ⊢
+      obtain ⟨⟨⟨⟨hd, hops⟩, _⟩, _⟩, hslots⟩ := hr
+      exact ⟨_, rfl, hd, hops, hslots, by first | (simp [shapeSem, frameOf, hslots]; done) | (simp [shapeSem, frameOf, hslots]; rfl) | rfl⟩
+    case h_2 op x =>
+      simp only [shapeOf, hh, Bool.and_eq_true, Bool.not_eq_true', beq_iff_eq] at hr ⊢
+      obtain ⟨⟨⟨⟨hd, hops⟩, _⟩, _⟩, hslots⟩ := hr
+      exact ⟨_, rfl, hd, hops, hslots, by first | (simp [shapeSem, frameOf, hslots]; done) | (simp [shapeSem, frameOf, hslots]; rfl) | rfl⟩
+    case h_3 op x y =>
+      simp only [shapeOf, hh, Bool.and_eq_true, Bool.not_eq_true', beq_iff_eq] at hr ⊢
+      obtain ⟨⟨⟨⟨hd, hops⟩, _⟩, _⟩, hslots⟩ := hr
+      exact ⟨_, rfl, hd, hops, hslots, by first | (simp [shapeSem, frameOf, hslots]; done) | (simp [shapeSem, frameOf, hslots]; rfl) | rfl⟩
+    case h_4 op x y =>
+      split at hm
+      · rename_i hg
+        cases hm
+        have hg' : r.guard = Guard.eq [2] := by simpa using hg
+        by_cases hin : op = Op.in
+        · subst hin
+          simp only [shapeOf, hh, hg', beq_self_eq_true, if_true, Bool.and_eq_true, Bool.not_eq_true', beq_iff_eq] at hr ⊢
+          obtain ⟨⟨⟨⟨hd, hops⟩, _⟩, _⟩, hslots⟩ := hr
+          refine ⟨_, rfl, hd, hops, hslots, ?_⟩
+          simp only [frameOf, hslots]
+          exact getlike_two P hnil1 hnil2 Op.in x y
+        · have hb : (op == Op.in) = false := by simpa using hin
+          simp only [shapeOf, hh, hg', beq_self_eq_true, if_true, hb, Bool.false_eq_true, if_false, Bool.and_eq_true, Bool.not_eq_true',
+            beq_iff_eq] at hr ⊢
+          obtain ⟨⟨⟨⟨hd, hops⟩, _⟩, _⟩, hslots⟩ := hr
+          exact ⟨_, rfl, hd, hops, hslots, by first | (simp [shapeSem, frameOf, hslots]; done) | (simp [shapeSem, frameOf, hslots]; rfl) | rfl⟩
+      · cases hm
+    case h_5 x y =>
+      simp only [shapeOf, hh, Bool.and_eq_true, Bool.not_eq_true', beq_iff_eq] at hr ⊢
+      obtain ⟨⟨⟨⟨hd, hops⟩, _⟩, _⟩, hslots⟩ := hr
+      refine ⟨_, rfl, hd, hops, hslots, ?_⟩
+      simp only [frameOf, hslots]
+      exact getlike_two P hnil1 hnil2 Op.get x y
+    case h_6 x y d =>
+      simp only [shapeOf, hh, Bool.and_eq_true, Bool.not_eq_true', beq_iff_eq] at hr ⊢
+      obtain ⟨⟨⟨⟨hd, hops⟩, _⟩, _⟩, hslots⟩ := hr
+      exact ⟨_, rfl, hd, hops, hslots, by simp [shapeSem, frameOf, hslots, hnil1]⟩
+    all_goals (
+      simp only [shapeOf, hh, Bool.and_eq_true, Bool.not_eq_true', beq_iff_eq, decide_eq_true_eq] at hr ⊢
+      obtain ⟨⟨⟨⟨hd, hops⟩, _⟩, _⟩, hslots⟩ := hr
+      exact ⟨_, rfl, hd, hops, hslots, by first | (simp [shapeSem, frameOf, hslots, replicate_getD0]; done) | (simp [shapeSem, frameOf, hslots, replicate_getD0]; rfl) | rfl⟩)
+
 /-- ★ a fixed-arity row that passes `fixedRowOk`: the specialised code computes what running the generic function's actual bytecode
     from its entry frame computes, for every admitted argument list.
     `hnil1`/`hnil2`: `janet_equals(v, nil)` is the nil test (the asm bodies of `get`/`in` test `v == nil`, the inline code jumps on nil) -/
@@ -210,59 +269,7 @@ theorem fixed_inline_eq_generic_bytecode (hnil1 : ∀ v, P.eqv v P.nil = P.isNil
     (r : OptRow) (hr : fixedRowOk r = true) (t : CoreFun) (ht : templateOf r.tag = some t)
     (args : List P.V) (m : M P P.V) (hm : evalInlineFixed P r args = some m) (w : P.W) :
     ∃ code fuel, t.words.map decode = code.map some ∧ exec P code fuel (frameOf P t.slots args) w = some (m w) := by
-  have key : ∃ sh, shapeOf r = some sh ∧ decodesTo t.words (shapeCode sh) = true ∧ shapeOpsOk sh = true ∧
-      (match sh with | .getlike _ => t.slots = 4 | .put => t.slots = 3 | .sss _ => t.slots = 2 | .signal _ => t.slots ≥ 1 | _ => t.slots = 1) ∧
-      m = shapeSem P sh (frameOf P t.slots args).slots := by
-    unfold fixedRowOk at hr
-    unfold evalInlineFixed at hm
-    split at hm
-    · cases hm
-    · rename_i hguard
-      split at hm <;> rename_i hh <;> (try cases hm) <;> rw [ht] at hr
-      case h_1 op x =>
-        simp only [shapeOf, hh, Bool.and_eq_true, Bool.not_eq_true', beq_iff_eq] at hr ⊢
-        obtain ⟨⟨⟨⟨hd, hops⟩, _⟩, _⟩, hslots⟩ := hr
-        exact ⟨_, rfl, hd, hops, hslots, by first | (simp [shapeSem, frameOf, hslots]; done) | (simp [shapeSem, frameOf, hslots]; rfl) | rfl⟩
-      case h_2 op x =>
-        simp only [shapeOf, hh, Bool.and_eq_true, Bool.not_eq_true', beq_iff_eq] at hr ⊢
-        obtain ⟨⟨⟨⟨hd, hops⟩, _⟩, _⟩, hslots⟩ := hr
-        exact ⟨_, rfl, hd, hops, hslots, by first | (simp [shapeSem, frameOf, hslots]; done) | (simp [shapeSem, frameOf, hslots]; rfl) | rfl⟩
-      case h_3 op x y =>
-        simp only [shapeOf, hh, Bool.and_eq_true, Bool.not_eq_true', beq_iff_eq] at hr ⊢
-        obtain ⟨⟨⟨⟨hd, hops⟩, _⟩, _⟩, hslots⟩ := hr
-        exact ⟨_, rfl, hd, hops, hslots, by first | (simp [shapeSem, frameOf, hslots]; done) | (simp [shapeSem, frameOf, hslots]; rfl) | rfl⟩
-      case h_4 op x y =>
-        split at hm
-        · rename_i hg
-          cases hm
-          have hg' : r.guard = Guard.eq [2] := by simpa using hg
-          by_cases hin : op = Op.in
-          · subst hin
-            simp only [shapeOf, hh, hg', beq_self_eq_true, if_true, Bool.and_eq_true, Bool.not_eq_true', beq_iff_eq] at hr ⊢
-            obtain ⟨⟨⟨⟨hd, hops⟩, _⟩, _⟩, hslots⟩ := hr
-            refine ⟨_, rfl, hd, hops, hslots, ?_⟩
-            simp only [frameOf, hslots]
-            exact getlike_two P hnil1 hnil2 Op.in x y
-          · have hb : (op == Op.in) = false := by simpa using hin
-            simp only [shapeOf, hh, hg', beq_self_eq_true, if_true, hb, Bool.false_eq_true, if_false, Bool.and_eq_true, Bool.not_eq_true',
-              beq_iff_eq] at hr ⊢
-            obtain ⟨⟨⟨⟨hd, hops⟩, _⟩, _⟩, hslots⟩ := hr
-            exact ⟨_, rfl, hd, hops, hslots, by first | (simp [shapeSem, frameOf, hslots]; done) | (simp [shapeSem, frameOf, hslots]; rfl) | rfl⟩
-        · cases hm
-      case h_5 x y =>
-        simp only [shapeOf, hh, Bool.and_eq_true, Bool.not_eq_true', beq_iff_eq] at hr ⊢
-        obtain ⟨⟨⟨⟨hd, hops⟩, _⟩, _⟩, hslots⟩ := hr
-        refine ⟨_, rfl, hd, hops, hslots, ?_⟩
-        simp only [frameOf, hslots]
-        exact getlike_two P hnil1 hnil2 Op.get x y
-      case h_6 x y d =>
-        simp only [shapeOf, hh, Bool.and_eq_true, Bool.not_eq_true', beq_iff_eq] at hr ⊢
-        obtain ⟨⟨⟨⟨hd, hops⟩, _⟩, _⟩, hslots⟩ := hr
-        exact ⟨_, rfl, hd, hops, hslots, by simp [shapeSem, frameOf, hslots, hnil1]⟩
-      all_goals (
-        simp only [shapeOf, hh, Bool.and_eq_true, Bool.not_eq_true', beq_iff_eq, decide_eq_true_eq] at hr ⊢
-        obtain ⟨⟨⟨⟨hd, hops⟩, _⟩, _⟩, hslots⟩ := hr
-        exact ⟨_, rfl, hd, hops, hslots, by first | (simp [shapeSem, frameOf, hslots, replicate_getD0]; done) | (simp [shapeSem, frameOf, hslots, replicate_getD0]; rfl) | rfl⟩)
+  have key := evalInlineFixed_shape P hnil1 hnil2 r hr t ht args m hm
   obtain ⟨sh, hsh, hd, hops, hslots, hmeq⟩ := key
   have h1 : 1 ≤ (frameOf P t.slots args).slots.length := by
     simp only [frameOf, List.length_append, List.length_replicate]
